@@ -4,3 +4,4 @@ from props import lemmas
 def build(ck):
     lemmas.w_lemmas(ck)
     lemmas.prod_lemmas(ck)
+    lemmas.selection_lemmas(ck)
